@@ -9,7 +9,7 @@
    [unmarshal_error_iter], [unmarshal_stream_error] are the decoders.  JIDs are
    their String() form; [parse] is jid.Parse and only enters through the
    premises [jid_ok]/[jid_okc] (a JID value parses to itself — property C11). *)
-From XV Require Import lib.Bytes gen.Stanza C13.Xml C13.Model C13.Proofs.
+From XV Require Import lib.Bytes gen.Stanza gen.StanzaAlloc C13.Xml C13.Model C13.Proofs C13.Heap C13.HeapProofs.
 
 (* --- well-formedness: whatever bytes the text fields hold, the emitted tokens
    are those of exactly one element whose every name position holds a proper
@@ -175,3 +175,48 @@ Theorem C13_norm_idempotent :
   (forall e, norm_error (norm_error e) = norm_error e) /\ (forall s, norm_stream (norm_stream s) = norm_stream s).
 Proof. exact (conj norm_error_idem norm_stream_idem). Qed.
 Print Assumptions C13_norm_idempotent.
+
+(* --- readers are values: what a token reader (or start element) built by the
+   library delivers does not depend on constructor calls made after it was
+   built.  [run_hist] executes a history of constructor calls (StartElement,
+   Wrap, Result, Error, stanza.Error.Wrap/TokenReader, stream.Error.TokenReader)
+   interleaved with partial reads, over a heap of backing arrays with Go's
+   append semantics (C13/Heap.v); the origins of the attribute slices are read
+   from the source (gen/StanzaAlloc.v).  For every history, at every moment and
+   for every reader: what it has delivered followed by what it would deliver if
+   drained now is exactly the token list of the value it was built from. --- *)
+Theorem C13_alloc_sites_fresh : origins_fresh src_origins = true.
+Proof. exact src_origins_fresh. Qed.
+Print Assumptions C13_alloc_sites_fresh.
+
+Theorem C13_readers_independent : forall ops i o,
+  nth_error (filter is_creation ops) i = Some o ->
+  reads_of i (snd (run_hist src_origins ops)) ++ pending (fst (run_hist src_origins ops)) i = spec_tokens o.
+Proof. exact readers_independent. Qed.
+Print Assumptions C13_readers_independent.
+
+(* the same for any source tree whose slice origins are all fresh *)
+Theorem C13_readers_independent_of_fresh_origins : forall og, origins_fresh og = true -> forall ops i o,
+  nth_error (filter is_creation ops) i = Some o ->
+  reads_of i (snd (run_hist og ops)) ++ pending (fst (run_hist og ops)) i = spec_tokens o.
+Proof. exact readers_independent_gen. Qed.
+Print Assumptions C13_readers_independent_of_fresh_origins.
+
+Theorem C13_drained_reader_delivers_its_value : forall ops i o,
+  nth_error (filter is_creation ops) i = Some o ->
+  nth i (w_readers (fst (run_hist src_origins ops))) [] = [] ->
+  reads_of i (snd (run_hist src_origins ops)) = spec_tokens o.
+Proof. exact drained_reader. Qed.
+Print Assumptions C13_drained_reader_delivers_its_value.
+
+(* freshness is necessary: with the <error/> start element copied from a
+   package-level variable whose Attr slice has spare capacity (OShared), the
+   reader of a cancel error that is read after an auth error was built delivers
+   type="auth" *)
+Theorem C13_shared_backing_array_breaks_independence :
+  reads_of 0 (snd (run_hist shared_error_origins aliasing_history)) <>
+  spec_tokens (HErr (mkse [] (str "cancel") (str "item-not-found") []) []) /\
+  reads_of 0 (snd (run_hist shared_error_origins aliasing_history)) =
+  spec_tokens (HErr (mkse [] (str "auth") (str "item-not-found") []) []).
+Proof. exact shared_origin_aliases. Qed.
+Print Assumptions C13_shared_backing_array_breaks_independence.
